@@ -540,6 +540,21 @@ def _f67(vio):
     return vio.get("kind") == "validity-check-raised" and "FIXME: sort for" in str(vio.get("detail"))
 
 
+@mechanism("F69-tojson-uint64-above-int64")
+def _f69(vio):
+    if vio.get("kind") != "json-output-differs":
+        return False
+    from vlib import model
+    import numpy as np
+    for d in _layouts(vio):
+        for _p, n in model.walk(d):
+            if n["c"] == "NumpyArray" and n["dtype"] == "uint64":
+                a = model.np_view(n)
+                if a.size and int(a.max()) >= (1 << 63):
+                    return True
+    return False
+
+
 @mechanism("F10-reduce-nonlocal")
 def _f10(vio):
     rep = _report(vio)
